@@ -88,6 +88,10 @@ NEG = {"Lt": "Ge", "Ge": "Lt", "Gt": "Le", "Le": "Gt", "Eq": "Ne", "Ne": "Eq"}
 TWO_VARIANT = {("std::option::Option", 0): 1, ("std::option::Option", 1): 0}
 
 
+# field names of the few external enum variants the canonical models build (their ADTs are not in the workspace facts)
+EXTERNAL_FIELDS = {"polonius_the_crab::PoloniusResult::Owned": ["value", "input_borrow"]}
+
+
 def raw_sig(fn):
     """hash of the MIR body without source positions (equal => textually the same body)"""
     def scrub(o):
@@ -480,6 +484,16 @@ class Summariser:
                 from .canon import identity_conversion
                 if identity_conversion(e[2] or ""):
                     return self.ex(e[3][0])       # <A as Into<A>>::into (known only once a generic helper's parameters are instantiated)
+                # a conversion between concrete workspace types (known only once a generic helper is instantiated): what the
+                # one `impl From` builds, when that is a plain value (a thiserror-style wrapper)
+                from .canon import from_impl_of
+                fid = from_impl_of(self.F, e[2] or "")
+                if fid is not None and (self.cur_fn is None or fid != self.cur_fn.id):
+                    qs = self.F.inline_paths(fid, 0, canon=True, inline_all=True)
+                    live = [q for q in (qs or []) if q.end != "unreachable"]
+                    if len(live) == 1 and live[0].end == "return" and not live[0].conds and live[0].ret is not None and \
+                            not [ev for ev in live[0].events if ev[0] in ("call", "write", "assert", "setdiscr")]:
+                        return self.ex(sym.subst_params(live[0].ret, {("param", 1): e[3][0]}))
             if len(e[3]) == 1 and (callee_is(e, *NUMCONV) or callee_is(e, "Into::into", "From::from")):
                 return ("conv", self.ex(e[3][0]))
             args = tuple(self.ex(a) for a in e[3])
@@ -536,6 +550,13 @@ class Summariser:
             if b[0] == "binop" and b[1].endswith("WithOverflow") and e[2] == 0:
                 return ("binop", b[1][:-len("WithOverflow")], self.ex(b[2]), self.ex(b[3]))
             sb = sym.strip_refs(b)
+            if isinstance(sb, tuple) and sb[:2] == ("agg", "adt") and isinstance(e[2], int) and e[3] is not None and sb[2].rsplit("::", 1)[-1] == e[3] and e[2] < len(sb[3]):
+                return self.ex(sb[3][e[2]])          # the payload of an enum value built on this path
+            if isinstance(sb, tuple) and sb[:2] in (("agg", "tuple"), ("agg", "array")) and isinstance(e[2], int) and e[2] < len(sb[3]):
+                return self.ex(sb[3][e[2]])
+            if isinstance(sb, tuple) and sb[:2] == ("agg", "adt") and isinstance(e[2], str) and sb[2] in EXTERNAL_FIELDS and e[2] in EXTERNAL_FIELDS[sb[2]] and \
+                    len(sb[3]) == len(EXTERNAL_FIELDS[sb[2]]):
+                return self.ex(sb[3][EXTERNAL_FIELDS[sb[2]].index(e[2])])
             if isinstance(sb, tuple) and sb[:2] == ("agg", "adt") and isinstance(e[2], str):
                 # a named field of a struct value built on this path (a helper constructed it, the caller takes it apart)
                 adt = self.F.adts.get(sb[2].rsplit("::", 1)[0])
